@@ -203,6 +203,10 @@ def run(ck, tier):
     run_agreement(ck, F)
     run_tracker(ck, F)
     run_codec(ck, F)
+    from . import arms
+    stab = [e for e in arms.load_sink_table() if e["fn"].startswith("arrow_ipc::")]
+    ck.rule("C04.sink-uniform", "every arm of write_array_data threads the running body offset into the metadata, the body sink and its result", floor=len(stab))
+    arms.check_sinks(ck, F, "C04.sink-uniform", stab)
     ck.note("Decided: node/buffer/child consumption agreement between the IPC array reader and the projection skipper for all 41 DataType constructors; "
             "dictionary tracker bookkeeping on every send path; isDelta honoured. Not decided: byte-level round trip, slicing arithmetic, compression, Flight splitting.")
     return F.info
